@@ -41,6 +41,10 @@ def gen_block(rng, zname, idx, fams):
                     b['lo'][j], b['hi'][j] = 0.0, r2(rng, 0.5, 2.5)
         if rng.random() < 0.3:
             b['form'] = 'scalar'        # one scalar bound per component instead of two vector comparisons
+        if rng.random() < 0.3:
+            # redundant looser bounds on the same components, stated before or after the tight ones
+            b['dup'] = {'pos': rng.choice(['after', 'after', 'before']), 'slack': r2(rng, 0.5, 3.0),
+                        'sides': rng.choice(['U', 'L', 'UL'])}
         return b
     centered = rng.random() < 0.5
     if centered:
